@@ -8,7 +8,7 @@ Local Open Scope N_scope.
      alnum   the non-ASCII code points of the case that char::is_alphanumeric accepts
              (reported by the harness)
    site and pattern are for the harness only.
-   result: ( model spec no_forged )  model = (1 codepoints) | "panic"; spec = codepoints *)
+   result: ( model spec )  model = (1 codepoints) | "panic"; spec = codepoints (one-pass meaning) *)
 Definition dec_str (v : vl) : option (list N) := val_list val_N v.
 
 Definition dec_pair (v : vl) : option (list N * list N) :=
@@ -27,8 +27,7 @@ Definition c19_run (v : vl) : vl :=
       let ua := in_table al in
       let env := lookup tbl in
       VL [ match expand ua env path with Ok s => VL [VN 1; enc_str s] | Panic => VS [112;97;110;105;99] end;
-           enc_str (expand_spec ua env path);
-           VB (NoForgedRef ua env path) ]
+           enc_str (expand_spec ua env path) ]
     | _, _, _ => VBad
     end
   | _ => VBad
